@@ -136,6 +136,15 @@ CHECKS = {
          "Trusted: Lean kernel + standard axioms; the GIL makes single dict/list operations atomic (assumed); completeness of the "
          "measured write sets. Bytecode-level atomicity and pandas internals are outside the model.",
          "Lean 4 proof (interleaving invariant) + write-set correspondence + schedule search", "§6 C20"),
+ "C17": ("Lean 4 theorems over decision tables REGENERATED from converted_types.py (simple / complex / nullable) and two facts regenerated "
+         "from ParquetFile._dtypes: every integer/boolean dtype the tables can yield has a nullable counterpart; if the promotion loop "
+         "concludes 'no nulls' then no row group holds a null, provided statistics without a null count count as 'may have nulls' (true "
+         "of the current source; the opposite reading is refuted by a proved witness - the repaired defect); a column that may hold "
+         "nulls is never predicted a plain int/bool. Tied by comparing the model's prediction with ParquetFile.dtypes for files without "
+         "pandas metadata; the oracle compares every metadata-only answer (columns, dtypes, categories, index, counts) with the read.",
+         "Trusted: Lean kernel + standard axioms; the table translator. Outside the model: pandas metadata JSON branch of typemap, "
+         "time zones, pandas dtype objects (compared by canonical name).",
+         "Lean 4 proof over regenerated tables + prediction correspondence + oracle", "§6 C17"),
 }
 
 def main():
